@@ -599,3 +599,9 @@ UNITS["DNode.Less"] = dict(
 # Quote's tail block (`if (nb > 0) { ... }`) as a verbatim fragment: decided on its own under the state the main loop leaves
 # (0 < nb < VEC_LEN), with constant-size objects (Quote as a whole did not get through CBMC)
 UNITS["Quote.tail"] = dict(file=QI, anchor=r"if \(nb > 0\) \{", kind="block", rules=SIMD_RULES + [("ns-std2", r"\bstd::memcpy\(", "memcpy(")])
+
+# parseStringInplace's second-phase block classification (the inline `block = StringBlock{...}` under find_and_move) as a verbatim
+# fragment: the loop as a whole is undecided, but this classification is a finite function of one vector block
+UNITS["parseStringInplace.classify"] = dict(
+    file=QI, anchor=r"VecType v\(src\);\n    block = StringBlock\{", kind="span", end=r"\};", rules=PSI_RULES,
+    must_fire=["vec-load", "sb-literal", "vec-cmp"])
